@@ -217,6 +217,7 @@ def run(spec):
         res.count("edit_runs")
         if o.ok and len(marks) == len(tr.project.cost_list):
             check_edited_logs(res, tr, marks, tr.absence)
+            C.check_registered(res, tr, "C01")
     return C.finish(res, tr)
 
 TECHNIQUE = "deterministic simulation: seeded model/schedule/absence search, live-state invariant at every phase of every step"
